@@ -20,6 +20,7 @@ import (
 	"github.com/orbs-network/lean-helix-go/services/messagesfactory"
 	"github.com/orbs-network/lean-helix-go/services/storage"
 	"github.com/orbs-network/lean-helix-go/spec/types/go/primitives"
+	"github.com/orbs-network/lean-helix-go/spec/types/go/protocol"
 	"github.com/orbs-network/lean-helix-go/state"
 	"github.com/orbs-network/scribe/log"
 
@@ -82,6 +83,33 @@ func (l *rtLogger) line(s string) {
 		}
 	}
 }
+func (l *rtLogger) signal(v uint64) {
+	l.mu.Lock()
+	if ch, ok := l.pings[v]; ok {
+		close(ch)
+		delete(l.pings, v)
+	}
+	l.mu.Unlock()
+}
+
+// witnessKM makes a worker iteration observable without log text: a ping is a PREPARE for the node's current
+// height signed by the outsider x00, and the first thing the term does with a PREPARE is ask the KeyManager SPI
+// to verify it.
+type witnessKM struct {
+	*spi.KM
+	lg *rtLogger
+}
+
+func (k *witnessKM) VerifyConsensusMessage(h primitives.BlockHeight, content []byte, sender *protocol.SenderSignature) error {
+	if sender != nil && string(sender.MemberId()) == "x00" {
+		func() {
+			defer func() { recover() }()
+			k.lg.signal(uint64(protocol.BlockRefReader(content).View()))
+		}()
+	}
+	return k.KM.VerifyConsensusMessage(h, content, sender)
+}
+
 func (l *rtLogger) Debug(format string, args ...interface{}) { l.line(format) }
 func (l *rtLogger) Info(format string, args ...interface{})  { l.line(format) }
 func (l *rtLogger) Error(format string, args ...interface{}) { l.line(format) }
@@ -291,7 +319,7 @@ func (net *Net) newNode(id string) *RNode {
 		Communication: comm,
 		Membership:    n.Mem,
 		BlockUtils:    n.BU,
-		KeyManager:    net.Keys.Signer(id),
+		KeyManager:    &witnessKM{KM: net.Keys.Signer(id), lg: n.Lg},
 		Storage:       n.Store,
 		Logger:        n.Lg,
 	}
@@ -410,13 +438,23 @@ func (n *RNode) Witness(k int) int {
 		n.Lg.mu.Lock()
 		n.Lg.pings[v] = ch
 		n.Lg.mu.Unlock()
-		n.ML.HandleConsensusMessage(n.ctx, n.ping.CreatePrepareMessage(0, primitives.View(v), []byte("ping")).ToConsensusRawMessage())
-		select {
-		case <-ch:
-			got++
-		case <-time.After(5 * time.Second):
+		// a PREPARE for the height being decided reaches the KeyManager SPI (witness without log text); the worker's
+		// own log line about the dequeued message is an equivalent second clock. If the height moves between sending
+		// and dequeuing, the ping is filtered before either: it is re-sent.
+		seen := false
+		for try := 0; try < 50 && !seen; try++ {
+			h, _ := n.HV()
+			n.ML.HandleConsensusMessage(n.ctx, n.ping.CreatePrepareMessage(primitives.BlockHeight(h), primitives.View(v), []byte("ping")).ToConsensusRawMessage())
+			select {
+			case <-ch:
+				seen = true
+			case <-time.After(100 * time.Millisecond):
+			}
+		}
+		if !seen {
 			return got
 		}
+		got++
 	}
 	return got
 }
